@@ -590,7 +590,10 @@ def run(ctx):
 
 
 def replay(ctx, path):
-    r = json.load(open(path))
+    import replaylib
+    r = replaylib.load("C01", path)
+    if not r.get("op"):
+        return replaylib.obligations("C01", run, r, path)
     okb, log, bd = vlib.c_build("asan", targets=["liblzma"])
     h1, h2 = hooks_present(bd)
     okh, log, exe = build_harness(h1, h2)
